@@ -304,4 +304,93 @@ theorem inRange_common (e a : CInt) (he : InRange e.ty e.val) (ha : InRange a.ty
   inRange_commonPromoted (promote e.ty) (promote a.ty) e.val a.val
     (inRange_promote _ _ he) (inRange_promote _ _ ha) h
 
+/-! ## values of bit patterns: the bridge between the typed (`BitVec`) regenerated macro expansions and the model's
+    mathematical operands -/
+
+theorem setWidth_eq_iff {w v : Nat} (h : w ≤ v) (x y : BitVec w) :
+    x.setWidth v = y.setWidth v ↔ x = y := zeroExtend_eq_iff h x y
+
+theorem signExtend_bne_iff {w v : Nat} (h : w ≤ v) (x y : BitVec w) :
+    (x.signExtend v != y.signExtend v) = (x != y) := by
+  by_cases e : x = y
+  · subst e; simp
+  · have : x.signExtend v ≠ y.signExtend v := fun q => e ((signExtend_eq_iff h x y).mp q)
+    have h1 : (x != y) = true := by simpa using e
+    have h2 : (x.signExtend v != y.signExtend v) = true := by simpa using this
+    rw [h1, h2]
+
+theorem setWidth_bne_iff {w v : Nat} (h : w ≤ v) (x y : BitVec w) :
+    (x.setWidth v != y.setWidth v) = (x != y) := by
+  by_cases e : x = y
+  · subst e; simp
+  · have : x.setWidth v ≠ y.setWidth v := fun q => e ((setWidth_eq_iff h x y).mp q)
+    have h1 : (x != y) = true := by simpa using e
+    have h2 : (x.setWidth v != y.setWidth v) = true := by simpa using this
+    rw [h1, h2]
+
+theorem conv_toInt {w : Nat} (n : Nat) (x : BitVec w) : conv n x.toInt = x.signExtend n := rfl
+
+theorem conv_toNat {w : Nat} (n : Nat) (x : BitVec w) : conv n (x.toNat : Int) = x.setWidth n := by
+  unfold conv
+  rw [BitVec.ofInt_natCast]
+  exact BitVec.ofNat_toNat n x
+
+/-- `cppNe` with the width of the common type made explicit (the regenerated expansions carry a literal width) -/
+theorem cppNe_w (e a : CInt) (W : Nat) (hW : (common e.ty a.ty).w = W) :
+    cppNe e a = (conv W e.val != conv W a.val) := by
+  subst hW; rfl
+
+theorem andLit_w (x : CInt) (m W : Nat) (s : Bool) (hW : (common x.ty tyInt).w = W)
+    (hs : (common x.ty tyInt).signed = s) :
+    (andLit x m).val = valueAt s (conv W x.val &&& BitVec.ofNat W m) := by
+  subst hW; subst hs; rfl
+
+theorem conv_zero (n : Nat) : conv n 0 = 0#n := by simp [conv]
+
+theorem seqO_nothing_left (x : Outcome) : seqO nothing x = x := by
+  cases x; simp [seqO, nothing]
+
+theorem toInt_bne_zero {n : Nat} (x : BitVec n) : (x.toInt != 0) = (x != 0#n) := by
+  by_cases h : x = 0#n
+  · subst h; simp
+  · have : x.toInt ≠ 0 := fun hz => h (BitVec.toInt_inj.mp (by simpa using hz))
+    have h2 : (x != 0#n) = true := by simpa using h
+    rw [h2]; simpa using this
+
+theorem toNat_bne_zero {n : Nat} (x : BitVec n) : ((x.toNat : Int) != 0) = (x != 0#n) := by
+  by_cases h : x = 0#n
+  · subst h; simp
+  · have : x.toNat ≠ 0 := fun hz => h (BitVec.eq_of_toNat_eq (by simpa using hz))
+    have h2 : (x != 0#n) = true := by simpa using h
+    rw [h2]; simp; omega
+
+theorem holds_lt_s {n : Nat} (x y : BitVec n) : RelOp.holds .lt x.toInt y.toInt = BitVec.slt x y := rfl
+theorem holds_lt_u {n : Nat} (x y : BitVec n) : RelOp.holds .lt (x.toNat : Int) (y.toNat : Int) = BitVec.ult x y := by
+  simp [RelOp.holds, BitVec.ult]
+theorem holds_le_s {n : Nat} (x y : BitVec n) : RelOp.holds .le x.toInt y.toInt = BitVec.sle x y := rfl
+theorem holds_le_u {n : Nat} (x y : BitVec n) : RelOp.holds .le (x.toNat : Int) (y.toNat : Int) = BitVec.ule x y := by
+  simp [RelOp.holds, BitVec.ule]
+theorem holds_gt_s {n : Nat} (x y : BitVec n) : RelOp.holds .gt x.toInt y.toInt = BitVec.slt y x := rfl
+theorem holds_gt_u {n : Nat} (x y : BitVec n) : RelOp.holds .gt (x.toNat : Int) (y.toNat : Int) = BitVec.ult y x := by
+  simp [RelOp.holds, BitVec.ult]
+theorem holds_ge_s {n : Nat} (x y : BitVec n) : RelOp.holds .ge x.toInt y.toInt = BitVec.sle y x := rfl
+theorem holds_ge_u {n : Nat} (x y : BitVec n) : RelOp.holds .ge (x.toNat : Int) (y.toNat : Int) = BitVec.ule y x := by
+  simp [RelOp.holds, BitVec.ule]
+theorem holds_eq_s {n : Nat} (x y : BitVec n) : RelOp.holds .eq x.toInt y.toInt = (x == y) := by
+  by_cases h : x = y <;> simp [RelOp.holds, h, BitVec.toInt_inj]
+theorem holds_eq_u {n : Nat} (x y : BitVec n) : RelOp.holds .eq (x.toNat : Int) (y.toNat : Int) = (x == y) := by
+  by_cases h : x = y
+  · simp [RelOp.holds, h]
+  · have : (x.toNat : Int) ≠ (y.toNat : Int) := fun hz => h (BitVec.eq_of_toNat_eq (by omega))
+    have h2 : (x == y) = false := by simpa using h
+    rw [h2]; simp only [RelOp.holds]; exact decide_eq_false this
+theorem holds_ne_s {n : Nat} (x y : BitVec n) : RelOp.holds .ne x.toInt y.toInt = (x != y) := by
+  by_cases h : x = y <;> simp [RelOp.holds, h, BitVec.toInt_inj]
+theorem holds_ne_u {n : Nat} (x y : BitVec n) : RelOp.holds .ne (x.toNat : Int) (y.toNat : Int) = (x != y) := by
+  by_cases h : x = y
+  · simp [RelOp.holds, h]
+  · have : (x.toNat : Int) ≠ (y.toNat : Int) := fun hz => h (BitVec.eq_of_toNat_eq (by omega))
+    have h2 : (x != y) = true := by simpa using h
+    rw [h2]; simp only [RelOp.holds]; exact decide_eq_true this
+
 end Asserts
